@@ -81,7 +81,10 @@ def hoist (b e : Nat) (m : Member) : List CapDef × List Toks :=
 
 def applyCtor (isAsync : Bool) (prev : Toks) (c : Comb) (ops : List Toks) : Except GenErr Toks :=
   match c with
-  | .initial => emitTokens .initial ops
+  | .initial => do
+    -- the initial value is parenthesised: postfix actions are appended to it
+    let e ← emitTokens .initial ops
+    pure [paren e]
   | .then_ => do
     let e ← emitTokens .then_ ops
     pure [paren (e ++ [paren prev])]
